@@ -1,6 +1,10 @@
 package sim
 
-import "strings"
+import (
+	"strings"
+
+	rolloutsv1beta1 "github.com/openkruise/rollouts/api/v1beta1"
+)
 
 // BaseMonitor provides no-op implementations.
 type BaseMonitor struct{}
@@ -70,6 +74,15 @@ func (ContextTracker) OnWrite(x *Ctx, w *Write) {
 		}
 		delete(x.Mon, "ctx.supersededKnob")
 	}
+	// the Rollout controller forgets an ongoing release: the workload vanished and the status is reset to Initial
+	// ("Workload Not Found") while the release had progressed
+	if w.Actor == "R" && w.Status && w.Key.GVR.Resource == "rollouts" && w.Before != nil && w.After != nil {
+		b, a := asRollout(w.Before), asRollout(w.After)
+		if b != nil && a != nil && a.Status.Phase == rolloutsv1beta1.RolloutPhaseInitial && a.Status.Message == "Workload Not Found" &&
+			b.Status.Phase == rolloutsv1beta1.RolloutPhaseProgressing {
+			x.Mon["ctx.forgotRelease"] = "1"
+		}
+	}
 	// the BatchRelease controller raises the exposure although the workload's revision is no longer the one the
 	// BatchRelease was created for (the release was superseded and the Rollout has not replaced it yet)
 	if w.Actor == "B" && w.Verb == "update" && !w.Status && w.Key.GVR.Resource == workloadResource(sc) && w.Before != nil && w.After != nil {
@@ -88,6 +101,14 @@ func (ContextTracker) OnTransition(x *Ctx, t *Transition) {
 		return
 	}
 	x.Mon["ctx.brAtCancel"] = "none"
+	// a revert that arrives after the last step completed and the Rollout is already finalising the successful
+	// release is not a revert "during a rollout": the controller has no cancellation to perform any more
+	if ro := getRollout(x.W, x.Sc); ro == nil || progressingReason(ro) != "InRolling" {
+		if ro != nil && ro.Status.Phase == rolloutsv1beta1.RolloutPhaseProgressing {
+			x.Mon["ctx.templateChangedWhileFinalising"] = "1"
+		}
+		return
+	}
 	for _, o := range x.W.Store.PeekAll("batchreleases") {
 		if accessor(o).GetNamespace() == x.Sc.ns() && accessor(o).GetName() == AppName {
 			x.Mon["ctx.brAtCancel"] = string(accessor(o).GetUID())
